@@ -29,7 +29,7 @@ META['explanation'] += ' ' + 'R10: timestamp / flag primitives (C11.R4/R5). R11:
 
 META['explanation'] += ' ' + 'R14: numeric presence by truth value (shared with C01.R14). R15: ECDSA points (shared with C07.R12).'
 
-META['explanation'] += ' ' + 'R16: no local-time API (shared with C11.R3). R17: identification string, parser and composer evaluated (shared with C07.R6).'
+META['explanation'] += ' ' + 'R16: no local-time API (shared with C11.R3). R17: identification string, parser and composer evaluated (shared with C07.R6). R18: no strip / case mapping / replace inside the composer primitives (shared with C11.R12).'
 
 ZONE_LITERALS = ('GMT', 'UTC', "Z'", '+0000', '+00:00')
 
@@ -73,6 +73,10 @@ def check(ctx, report):
     # the identification string: an empty comment is not "no comment" (tabulation shared with C07.R6)
     from .c07 import banner
     banner(ctx, report, RULE='C05.R17')
+    # what the composer primitives join is what the items hold (rule shared with C11.R12)
+    from .c11 import octets_unchanged
+    octets_unchanged(ctx, report, RULE='C05.R18', classes=('ComposerBase', 'ComposerBinary', 'ComposerText'),
+                     title='the composer primitives write the items they are given unchanged (no strip / case mapping / replace on composed data)')
     from .c18 import name_value_composers
     name_value_composers(ctx, report, rule='C05.R5')
     from .c08 import txt_chunks
